@@ -613,8 +613,12 @@ func judge(doc J) *judgement {
 		}
 		for _, sel := range []J{tcpSel, udpSel} {
 			p := object(sel, "probe")
-			j.duration(p, "timeout", "probe-timeout")
-			j.duration(p, "interval", "probe-interval")
+			if d, ok := j.duration(p, "timeout", "probe-timeout"); ok && d < 0 {
+				j.open("negative-probe-timeout")
+			}
+			if d, ok := j.duration(p, "interval", "probe-interval"); ok && d < 0 {
+				j.open("negative-probe-interval")
+			}
 			if addressKind(p, "address") == "bad" {
 				j.bad("malformed-address")
 			}
@@ -762,7 +766,12 @@ func judge(doc J) *judgement {
 		}
 		switch cl := str(m, "client"); {
 		case cl == "":
-			j.bad("route-without-client") // "Must not be empty."
+			if tcpNames[""] || udpNames[""] {
+				// a client or group with the empty name exists (itself an open case): the reference resolves
+				j.open("route-to-the-client-named-empty")
+			} else {
+				j.bad("route-without-client") // "Must not be empty."
+			}
 		case cl == "reject":
 		default:
 			inT, inU := tcpNames[cl], udpNames[cl]
